@@ -216,3 +216,28 @@ func VH_C13_compose() {
 	zzverif.Assert(second == ((c+1)%n == 1), "compose: overflow event decided by the next sampler")
 	zzverif.Reach("C13/compose")
 }
+
+// Events rejected by the level gate (logger level or global level) never consume sampler budget,
+// and DisableSampling(true) admits everything without touching the sampler.
+func VH_C13_gate() {
+	ll, g, lvl := vLevel(), vLevel(), vLevel()
+	SetGlobalLevel(g)
+	c := zzverif.U32()
+	zzverif.Assume(c < 0xffffffff)
+	bs := &BasicSampler{N: 3, counter: c}
+	w := &vWriter{}
+	l := Logger{w: w, level: ll, sampler: bs}
+	disabled := zzverif.Bool()
+	DisableSampling(disabled)
+	l.WithLevel(lvl).Msg("m")
+	passes := lvl >= ll && lvl >= g && lvl != Disabled
+	if !passes {
+		zzverif.Assert(bs.counter == c, "an event rejected by the level gate consumes no sampler budget")
+		zzverif.Assert(len(w.calls) == 0, "rejected event not written")
+	} else if disabled {
+		zzverif.Assert(bs.counter == c && len(w.calls) == 1, "DisableSampling(true) admits everything and leaves the sampler untouched")
+	} else {
+		zzverif.Assert(bs.counter == c+1, "an event that passes the level gate is sampled exactly once")
+	}
+	zzverif.Reach("C13/gate")
+}
